@@ -76,7 +76,7 @@ func RunEdit(r *Rng, data []byte) ([]byte, string) {
 	l := lens[r.Intn(len(lens))]
 	at := 0
 	if n > 0 {
-		at = []int{0, n - 1, n / 2, (n / BS) * BS, r.Intn(n), (r.Intn(n/BS+1)) * BS}[r.Intn(6)]
+		at = []int{0, n - 1, n / 2, (n / BS) * BS, r.Intn(n), (r.Intn(n/BS + 1)) * BS}[r.Intn(6)]
 	}
 	if at > n {
 		at = n
